@@ -31,8 +31,11 @@ func repoDir() string {
 	return "/repo"
 }
 
+var stepClauses []*Clause
+
 func LoadWorld() (*World, error) {
 	t0 := time.Now()
+	stepClauses = nil
 	cfg := &packages.Config{
 		Mode: packages.NeedName | packages.NeedFiles | packages.NeedCompiledGoFiles | packages.NeedImports | packages.NeedTypes | packages.NeedTypesSizes | packages.NeedSyntax | packages.NeedTypesInfo,
 		Dir:  repoDir(),
@@ -72,6 +75,7 @@ func LoadWorld() (*World, error) {
 			w.contracts[c.Key] = c
 		}
 		w.lemmas = append(w.lemmas, cf.Lemmas...)
+		stepClauses = append(stepClauses, cf.Steps...)
 		for _, sf := range cf.SpecFuns {
 			specFuns[sf.Name] = sf
 			var n int
